@@ -391,10 +391,10 @@ func probes(nd *node, rng *vh.Rng) {
 		}
 		ok := nd.needReorg(uint64(r))
 		if !nd.fault && uint64(r) < nd.maxLib.no && ok {
-			nd.failVeto(fmt.Sprintf("NeedReorganization(%d) = true below the LIB %d this node reported", r, nd.maxLib.no), false)
+			nd.failVeto(fmt.Sprintf("NeedReorganization(%d) = true below the LIB %d this node reported", r, nd.maxLib.no))
 		}
 		if !nd.fault && d.Loaded && ok != (uint64(r) >= d.Lib.No) {
-			nd.fail(fmt.Sprintf("NeedReorganization(%d) = %v with LIB %d", r, ok, d.Lib.No), "", false)
+			nd.fail(fmt.Sprintf("NeedReorganization(%d) = %v with LIB %d", r, ok, d.Lib.No), "")
 		}
 	}
 	// a competing block numbered lib.no, lib.no+1 (child of the main-chain block below it, some member as producer)
@@ -407,10 +407,10 @@ func probes(nd *node, rng *vh.Rng) {
 		b := nd.w.mkBlock(parent, nd.w.gbps[rng.Intn(len(nd.w.gbps))], 1)
 		ok := nd.verifyTs(b)
 		if !nd.fault && b.no <= nd.maxLib.no && ok {
-			nd.failVeto(fmt.Sprintf("VerifyTimestamp accepted a block numbered %d <= LIB %d this node reported", b.no, nd.maxLib.no), false)
+			nd.failVeto(fmt.Sprintf("VerifyTimestamp accepted a block numbered %d <= LIB %d this node reported", b.no, nd.maxLib.no))
 		}
 		if !nd.fault && d.Loaded && ok != (b.no > d.Lib.No) {
-			nd.fail(fmt.Sprintf("VerifyTimestamp(block %d) = %v with LIB %d", b.no, ok, d.Lib.No), "", false)
+			nd.fail(fmt.Sprintf("VerifyTimestamp(block %d) = %v with LIB %d", b.no, ok, d.Lib.No), "")
 		}
 	}
 }
